@@ -192,14 +192,32 @@ def _atoms(e, pol, out):
 
 
 def must_atoms(g, node, fnode, params=()):
-    """canonical elementary conditions that hold whenever `node` executes (from the tests that guard it on every path)"""
+    """canonical elementary conditions that hold whenever `node` executes (from the tests that guard it on every path).  A local defined by an
+    observer call (`has_room = q.full() is False`) stands for that observation only if nothing that can change it (another call) lies between
+    the definition and the test"""
     out = set()
     for x in g.nodes:
         if x.kind != 'test':
             continue
+
+        def fresh(name, d, x=x):
+            dn = [m for m in g.nodes if m.kind == 'stmt' and isinstance(m.ast, (ast.Assign, ast.AnnAssign)) and getattr(m.ast, 'value', None) is not None
+                  and any(y is d for y in ast.walk(m.ast.value))]
+            if len(dn) != 1 or not g.dominates(dn[0], x):
+                return False
+            between = (g.reachable(dn[0]) & g.reachable(x, forward=False)) - {dn[0], x}
+            for m in between:
+                if m.kind in ('entry', 'exit', 'xexit', 'def'):
+                    continue
+                if m.kind == 'with':
+                    return False
+                for c in m.calls():
+                    if not (isinstance(c.func, ast.Name) and c.func.id in ('len', 'isinstance', 'bool', 'int', 'str', 'type', 'id')):
+                        return False
+            return True
         for lab, pol in (('true', True), ('false', False)):
             if guarded_by_edge(g, node, x, lab):
-                _atoms(expand_locals(x.ast, fnode, params=params, observers=True), pol, out)
+                _atoms(expand_locals(x.ast, fnode, params=params, observers=True, fresh=fresh), pol, out)
     return out
 
 
